@@ -425,4 +425,215 @@ theorem C19_table_sorted (m : List (Bytes × List Int)) (h : (m.map (·.1)).Nodu
     topicRef (assignmentsFromMap m) ((assignmentsFromMap m)[i]'hi).1 = some i :=
   C19_lookup_complete _ (assignmentsFromMap_sorted m h).1 i hi
 
+/-! ## the consumed set never changes after creation -/
+
+variable {σ : Type}
+
+/-- the consumed set as the consumer holds it: the keys of its fetch-state table, and the assignment table they index -/
+def Same (c c' : Consumer) : Prop :=
+  c'.fetchOffsets.map (·.1) = c.fetchOffsets.map (·.1) ∧ c'.assignments = c.assignments
+
+theorem Same.refl (c : Consumer) : Same c c := ⟨rfl, rfl⟩
+theorem Same.trans {a b c : Consumer} (h1 : Same a b) (h2 : Same b c) : Same a c :=
+  ⟨h2.1.trans h1.1, h2.2.trans h1.2⟩
+
+theorem assocSet_keys {α β} [DecidableEq α] (m : List (α × β)) (k : α) (v : β) (h : (assocGet m k).isSome) :
+    (assocSet m k v).map (·.1) = m.map (·.1) := by
+  induction m with
+  | nil => simp [assocGet] at h
+  | cons x xs ih =>
+    obtain ⟨k', v'⟩ := x
+    by_cases hk : k' = k
+    · simp [assocSet, hk]
+    · simp only [assocSet, hk, if_false, List.map_cons]
+      have : (assocGet xs k).isSome := by
+        simpa [assocGet, List.find?, hk] using h
+      rw [ih this]
+
+theorem processPartition_same (nm : Int) (nq : Nat) (single : Bool) (c c' : Consumer) (tr : Nat) (p : FetchPartition) (got : Bool)
+    (h : processPartition nm nq single c tr p = (.ok c', got)) : Same c c' := by
+  unfold processPartition at h
+  cases hd : p.data with
+  | error code => rw [hd] at h; simp at h
+  | ok v =>
+    obtain ⟨hw, msgs⟩ := v
+    rw [hd] at h
+    simp only [] at h
+    cases hfs : assocGet c.fetchOffsets ⟨tr, p.partition⟩ with
+    | none => rw [hfs] at h; simp at h
+    | some fs =>
+      rw [hfs] at h
+      simp only [] at h
+      have hs : (assocGet c.fetchOffsets ⟨tr, p.partition⟩).isSome := by simp [hfs]
+      cases hl : msgs.getLast? with
+      | some last =>
+        rw [hl] at h
+        simp only [Prod.mk.injEq, Outcome.ok.injEq] at h
+        rw [← h.1]; exact ⟨assocSet_keys _ _ _ hs, rfl⟩
+      | none =>
+        rw [hl] at h
+        simp only [] at h
+        by_cases h1 : fs.offset < hw
+        · simp only [h1, if_true] at h
+          by_cases h2 : fs.maxBytes < c.retryLimit
+          · simp only [h2, if_true, Prod.mk.injEq, Outcome.ok.injEq] at h
+            rw [← h.1]
+            split <;> exact ⟨assocSet_keys _ _ _ hs, rfl⟩
+          · simp only [h2, if_false] at h
+            by_cases h3 : nq = 1
+            · simp [h3] at h
+            · simp only [h3, if_false, Prod.mk.injEq, Outcome.ok.injEq] at h
+              rw [← h.1]; split <;> exact Same.refl c
+        · simp only [h1, if_false, Prod.mk.injEq, Outcome.ok.injEq] at h
+          rw [← h.1]; exact Same.refl c
+
+theorem processAll_same (nm : Int) (nq : Nat) (single : Bool) :
+    ∀ (parts : List (Bytes × FetchPartition)) (c c' : Consumer) (ne ne' : Bool),
+      processAll nm nq single parts c ne = (.ok c', ne') → Same c c' := by
+  intro parts
+  induction parts with
+  | nil => intro c c' ne ne' h; simp only [processAll, Prod.mk.injEq, Outcome.ok.injEq] at h; rw [← h.1]; exact Same.refl c
+  | cons x r ih =>
+    intro c c' ne ne' h
+    obtain ⟨t, p⟩ := x
+    simp only [processAll] at h
+    cases htr : topicRef c.assignments t with
+    | none => rw [htr] at h; simp at h
+    | some tr =>
+      rw [htr] at h
+      simp only [] at h
+      rcases hp : processPartition nm nq single c tr p with ⟨o, got⟩
+      rw [hp] at h
+      cases o with
+      | ok c1 => exact Same.trans (processPartition_same nm nq single c c1 tr p got hp) (ih _ _ _ _ h)
+      | err e => simp at h
+      | panic s => simp at h
+      | diverge => simp at h
+
+theorem processAllReached_same (nm : Int) (nq : Nat) (single : Bool) :
+    ∀ (parts : List (Bytes × FetchPartition)) (c : Consumer), Same c (processAllReached nm nq single parts c) := by
+  intro parts
+  induction parts with
+  | nil => intro c; exact Same.refl c
+  | cons x r ih =>
+    intro c
+    obtain ⟨t, p⟩ := x
+    simp only [processAllReached]
+    cases htr : topicRef c.assignments t with
+    | none => exact Same.refl c
+    | some tr =>
+      simp only []
+      rcases hp : processPartition nm nq single c tr p with ⟨o, got⟩
+      cases o with
+      | ok c1 => exact Same.trans (processPartition_same nm nq single c c1 tr p got hp) (ih c1)
+      | err e => exact Same.refl c
+      | panic s => exact Same.refl c
+      | diverge => exact Same.refl c
+
+/-- whatever the brokers answered: the book-keeping of a poll leaves the consumed set alone -/
+theorem processResponses_same (nq : Nat) (resps : List FetchResponse) (w : WC σ) :
+    Same w.cons (processResponses nq resps w).1.cons := by
+  unfold processResponses
+  simp only []
+  split
+  · exact Same.refl _
+  · split
+    · rename_i c' ne h; exact processAll_same _ _ _ _ _ _ _ _ h
+    · exact processAllReached_same _ _ _ _ _
+    · exact Same.refl _
+    · exact Same.refl _
+
+/-- a consumer operation that leaves the consumed set alone, whatever the world does -/
+def Keeps {α} (m : CoM σ α) : Prop := ∀ w, Same w.cons (m w).1.cons
+
+theorem keeps_bind {α β} (m : CoM σ α) (f : α → CoM σ β) (hm : Keeps m) (hf : ∀ a, Keeps (f a)) : Keeps (m >>= f) := by
+  intro w
+  rw [M.bind_def]
+  have h1 := hm w
+  rcases hmw : m w with ⟨s', o⟩
+  rw [hmw] at h1
+  cases o with
+  | ok a => exact Same.trans h1 (hf a s')
+  | err e => exact h1
+  | panic p => exact h1
+  | diverge => exact h1
+
+theorem keeps_pure {α} (a : α) : Keeps (pure a : CoM σ α) := fun _ => Same.refl _
+theorem keeps_fail {α} (e : Err) : Keeps (M.fail e : CoM σ α) := fun _ => Same.refl _
+theorem keeps_getCons : Keeps (getCons : CoM σ Consumer) := fun _ => Same.refl _
+theorem keeps_lift {α} (m : CM σ α) : Keeps (liftClient m) := fun _ => ⟨rfl, rfl⟩
+theorem keeps_mod (f : Consumer → Consumer) (hf : ∀ c, Same c (f c)) : Keeps (modCons f : CoM σ Unit) := fun w => hf w.cons
+theorem keeps_process (nq : Nat) (resps : List FetchResponse) : Keeps (processResponses nq resps : CoM σ PollResult) :=
+  fun w => processResponses_same nq resps w
+
+/-- **poll** fetches and book-keeps; the consumed set is what it was -/
+theorem C19_poll_keeps (env : Env σ) : Keeps (poll env) := by
+  unfold poll
+  refine keeps_bind _ _ keeps_getCons fun c => ?_
+  split
+  · refine keeps_bind _ _ (keeps_mod _ fun c => ⟨rfl, rfl⟩) fun _ => ?_
+    split
+    · exact keeps_fail _
+    · exact keeps_bind _ _ (keeps_lift _) fun r => keeps_process _ _
+  · exact keeps_bind _ _ (keeps_lift _) fun r => keeps_process _ _
+
+theorem C19_seek_keeps (t : Bytes) (p off : Int) : Keeps (seek t p off : CoM σ Unit) := by
+  intro w
+  unfold seek
+  rw [M.bind_def]
+  simp only [getCons]
+  cases htr : topicRef w.cons.assignments t with
+  | none => exact Same.refl _
+  | some tr =>
+    simp only []
+    cases hfs : assocGet w.cons.fetchOffsets ⟨tr, p⟩ with
+    | none => exact Same.refl _
+    | some fs =>
+      simp only [modCons, M.modify]
+      exact ⟨assocSet_keys _ _ _ (by simp [hfs]), rfl⟩
+
+theorem C19_consume_keeps (t : Bytes) (p off : Int) : Keeps (consumeMessage t p off : CoM σ Unit) := by
+  unfold consumeMessage
+  refine keeps_bind _ _ keeps_getCons fun c => ?_
+  split
+  · exact keeps_fail _
+  · simp only []
+    split
+    · exact keeps_fail _
+    · split
+      · exact keeps_mod _ fun c => ⟨rfl, rfl⟩
+      · split
+        · exact keeps_mod _ fun c => ⟨rfl, rfl⟩
+        · exact keeps_pure _
+
+theorem C19_commit_keeps (env : Env σ) : Keeps (commitConsumed env) := by
+  unfold commitConsumed
+  refine keeps_bind _ _ keeps_getCons fun c => ?_
+  split
+  · exact keeps_fail _
+  · exact keeps_bind _ _ (keeps_lift _) fun _ => keeps_mod _ fun c => ⟨rfl, rfl⟩
+
+/-- the operations of a consumer's life -/
+inductive COp
+  | poll | seek (t : Bytes) (p off : Int) | consume (t : Bytes) (p off : Int) | commit
+
+def runOp (env : Env σ) (w : WC σ) : COp → WC σ
+  | .poll => (poll env w).1
+  | .seek t p off => (seek t p off w).1
+  | .consume t p off => (consumeMessage t p off w).1
+  | .commit => (commitConsumed env w).1
+
+/-- **nothing else, ever**: after any history of polls, seeks, consumed marks and commits - whatever the brokers answer,
+    whichever calls fail - the consumer's fetch-state table has exactly the keys it was created with, in the same order,
+    over the same assignment table; every poll's Fetch request is built from that table -/
+theorem C19_history (env : Env σ) (ops : List COp) (w : WC σ) : Same w.cons (ops.foldl (runOp env) w).cons := by
+  induction ops generalizing w with
+  | nil => exact Same.refl _
+  | cons op r ih =>
+    refine Same.trans ?_ (ih (runOp env w op))
+    cases op with
+    | poll => exact C19_poll_keeps env w
+    | seek t p off => exact C19_seek_keeps t p off w
+    | consume t p off => exact C19_consume_keeps t p off w
+    | commit => exact C19_commit_keeps env w
 end Kafka.Props.C19
